@@ -223,8 +223,8 @@ def ledger_layer(ctx):
                 outer = 'SELECT date, flag, account, position FROM %s WHERE account %s %%s' % (outer_from, op)
                 pairs.append((outer % ('(' + inner + ')'), outer % lit))
     # a subquery that returns rows, all of them NULL, is not an empty subquery
-    nulls = conn.execute("SELECT count(*) FROM #postings WHERE cost_label IS NULL").fetchall()[0][0]
-    if nulls:
+    nullrows = conn.execute("SELECT cost_label FROM #postings WHERE cost_label IS NULL").fetchall()
+    if nullrows:
         pairs.append(("SELECT account, account IN (SELECT cost_label FROM #postings WHERE cost_label IS NULL) AS a, "
                       "account NOT IN (SELECT cost_label FROM #postings WHERE cost_label IS NULL) AS b FROM #postings",
                       "SELECT account, FALSE AS a, TRUE AS b FROM #postings"))
